@@ -285,6 +285,15 @@ def _c20_floods(lines, seed, tier):
         c["key"] = c["key"] + "+forms"
         c["tags"] = list(c.get("tags") or []) + ["forms"]
         out.append(json.dumps(c) + "\n")
+    # ... and variants in which the first lookup is also made, before all others, by a template that is included sandboxed
+    meth = [l for l in lines if '"Name"' in l or '"PName"' in l or '"AName"' in l]
+    for l in rnd.sample(meth, min(len(meth), 150 if tier == "quick" else 1000)) + rnd.sample(lines, min(len(lines), 150 if tier == "quick" else 1000)):
+        c = json.loads(l)
+        first = dict(c["ops"][0], sb=True)
+        c["ops"] = [first] + c["ops"]
+        c["key"] = c["key"] + "+sandboxfirst"
+        c["tags"] = list(c.get("tags") or []) + ["sandboxfirst"]
+        out.append(json.dumps(c) + "\n")
     strata = [[l for l in lines if '"PName"' in l or '"AName"' in l],
               [l for l in lines if '"S10"' in l or '"S12"' in l or '"S11"' in l], lines]
     k = 30 if tier == "quick" else 200
